@@ -1,14 +1,35 @@
 ---------------------------- MODULE Trace_Output ----------------------------
-(* C03: TLC judges the files a real run wrote (library writers through DeferredFileWriter, or the martinize2 CLI).
-   Event "Files(system, names, pdb, itps, top)" of DESIGN.md appendix B, one per trace:
+(* C03: TLC judges the COMPLETE set of files a real run wrote (library writers through DeferredFileWriter, or the
+   martinize2 command line with its output-shaping options).  One event per run (DESIGN.md appendix B, "Files"):
+
      names : Seq(STRING)                 meta['moltype'] of the molecules, in system (= coordinate file) order
-     pdb   : Seq(Seq([name, resname, resid]))   coordinate records per molecule (TER-delimited), strings
-     itps  : Seq([name, itp])            every <name>.itp found in the directory;
-             itp = [moltype, nrexcl, recs]   recs = abstract records of indep_readers.read_itp (see ItpWrite)
-     top   : [includes : Seq(STRING) (".itp" stripped), molecules : Seq([name, n])]
+     pdb   : Seq(Seq([name, resname, resid, chain]))   coordinate records per molecule (TER-delimited), strings
+     gro   : <<>> or <<Seq([name, resname, resid])>>   the records of the GRO file of the same system (the format has no
+                                                       molecule delimiter: one flat list)
+     itps  : Seq([name, itp])            every <name>.itp in the directory that holds a [ moleculetype ];
+             itp = [moltype, nrexcl, recs]   recs = abstract records of indep_readers.read_itp (see ItpText)
+     top   : [includes : Seq(STRING) (".itp" stripped), molecules : Seq([name, n]), defines : Seq(STRING),
+              malformed : Seq(STRING)]
      own   : Seq(itp)                    what the ITP writer states for molecule j written on its own under names[j]
-   The verdict is the statement of C03, evaluated on the real files.                                           *)
+     extra : [kind : "none" | "go" | "vs", atomtypes : Seq(STRING), nbparams : Seq(Seq(STRING)), malformed : Seq(STRING)]
+             the [ atomtypes ] / [ nonbond_params ] files of a Go-model or water-bias run (go_ resp. virtual_sites_ prefix)
+     opt   : [judged, go, sep : BOOLEAN, molname : STRING, chains : Seq(STRING), merge : Seq(Seq(STRING)), all : BOOLEAN]
+             what the command line was asked for (judged = FALSE: library run, no option clause applies)
+     rb    : <<>> or <<[pdb, gro, itps]>>   the written files READ BACK by the repository's own readers
+             (vermouth.pdb.read_pdb, vermouth.gmx.gro.read_gro, vermouth.gmx.itp_read.read_itp), projected field by field:
+             pdb : Seq(Seq([name, resname, resid : Int])), gro : <<>> or <<Seq(..)>>,
+             itps : Seq([name, nrexcl_n, num, rd])  (num / rd exactly as spec/ItpAgree.tla describes them)
+     again : <<>> or <<[pdb, gro, itps, top, extra]>>   the files of a SECOND write of the same system
+     hist  : Seq([perm, dedup, names])   the same molecules (copies) named afresh by NameMolType in the order
+             perm (perm[i] = position in this event's system of the molecule at position i)
+     refused : BOOLEAN                   the topology writer raised instead of writing (caller-named systems only)
+
+   The verdict is the statement of C03 evaluated on the real files; it lists EVERY group of clauses that fails,
+   separated by a semicolon (the string ok when none does).                                                                      *)
 EXTENDS Integers, Sequences, FiniteSets, TLC, Json, IOUtils
+
+FC == INSTANCE FixedColOps          \* C16's column tables: which characters of a value a fixed column can hold
+IA == INSTANCE ItpAgree             \* C02's description of .itp content shared by both readers of the format
 
 Batch == JsonDeserialize(IOEnv.TRACE_FILE)
 Ambient == {"martini"}                 \* force-field include, not a molecule type
@@ -19,30 +40,174 @@ vars == <<tid, verdict>>
 
 RECURSIVE Expand(_)
 Expand(ms) == IF ms = <<>> THEN <<>> ELSE [i \in 1..Head(ms).n |-> Head(ms).name] \o Expand(Tail(ms))
+RECURSIVE Concat(_)
+Concat(ss) == IF ss = <<>> THEN <<>> ELSE Head(ss) \o Concat(Tail(ss))
 
 AtomsOf(itp) == SelectSeq(itp.recs, LAMBDA r : r.k = "atom")
 \* [ atoms ] line: nr | type resnr residue atom cgnr ...
-Coord(r) == [name |-> r.p[4], resname |-> r.p[3], resid |-> r.p[2]]
+TypeOf(r) == r.p[1]
 
-Judge(e) ==
+(* What a coordinate record can say about an ITP atom.  A value that fits its column appears exactly; a value that
+   does not (residue number >= 10000 or <= -1000 in PDB, >= 100000 in GRO, names wider than the column) appears as the
+   characters the column table of C16 lets survive (low-order digits of a number, leading characters of a left-aligned
+   text; either end of a right-aligned text).  This is all "the same residue number / name" can mean in a fixed-column
+   file, and it is what the statement is taken to require there.                                                   *)
+Field(table, f) == table[FC!FieldIdx(table, f)]
+Holds(table, f, shown, value) == shown \in FC!Admissible(Field(table, f), value)
+PdbSays(a, r) == /\ Holds(FC!PdbAtomW, "name", a.name, r.p[4])
+                 /\ Holds(FC!PdbAtomW, "resname", a.resname, r.p[3])
+                 /\ Holds(FC!PdbAtomW, "resid", a.resid, r.p[2])
+GroSays(a, r) == /\ Holds(FC!GroAtomW, "name", a.name, r.p[4])
+                 /\ Holds(FC!GroAtomW, "resname", a.resname, r.p[3])
+                 /\ Holds(FC!GroAtomW, "resid", a.resid, r.p[2])
+
+NoName(itp) == [nrexcl |-> itp.nrexcl, recs |-> itp.recs]
+FirstOcc(s, j) == CHOOSE i \in DOMAIN s : s[i] = s[j] /\ \A q \in DOMAIN s : s[q] = s[j] => i <= q
+Rank(s, j) == Cardinality({FirstOcc(s, i) : i \in 1..FirstOcc(s, j)}) - 1        \* Output!NameDecl
+NumberedByFirstOcc(s, prefix) == \A j \in DOMAIN s : s[j] = prefix \o "_" \o ToString(Rank(s, j))
+
+-----------------------------------------------------------------------------
+(* group 0: the files exist and are the right ones (everything else looks files up by molecule type name) *)
+Structure(e) ==
   LET names == e.names
       incl  == SelectSeq(e.top.includes, LAMBDA x : x \notin Ambient)
       Files(nm) == {i \in DOMAIN e.itps : e.itps[i].name = nm}
       Itp(nm) == e.itps[CHOOSE i \in DOMAIN e.itps : e.itps[i].name = nm].itp
   IN IF \E i \in DOMAIN e.top.molecules : e.top.molecules[i].n < 1 THEN "top-count-not-positive"
+     ELSE IF e.top.malformed # <<>> THEN "top-file-has-lines-that-are-no-include-define-title-or-molecule-count"
      ELSE IF Expand(e.top.molecules) # names THEN "top-does-not-list-the-molecule-types-in-coordinate-order-with-correct-counts"
      ELSE IF \E nm \in Range(names) : Cardinality({i \in DOMAIN incl : incl[i] = nm}) # 1
           THEN "molecule-type-file-not-included-exactly-once"
      ELSE IF \E i \in DOMAIN incl : incl[i] \notin Range(names) THEN "include-of-a-file-that-is-no-molecule-type-of-the-system"
      ELSE IF \E nm \in Range(names) : Cardinality(Files(nm)) # 1 THEN "no-single-itp-file-for-a-molecule-type"
+     ELSE IF \E i \in DOMAIN e.itps : e.itps[i].name \notin Range(names) THEN "itp-file-of-a-molecule-type-the-system-does-not-have"
      ELSE IF \E nm \in Range(names) : Itp(nm).moltype # nm THEN "itp-file-declares-another-molecule-type"
      ELSE IF Len(e.pdb) # Len(names) THEN "coordinate-file-has-another-number-of-molecules"
-     ELSE IF \E j \in DOMAIN names : Len(e.pdb[j]) # Len(AtomsOf(Itp(names[j])))
+     ELSE ""
+
+(* group 1: the statement proper, on the coordinate file the command line / write_pdb produced *)
+Core(e) ==
+  LET names == e.names
+      Itp(nm) == e.itps[CHOOSE i \in DOMAIN e.itps : e.itps[i].name = nm].itp
+  IN IF \E j \in DOMAIN names : Len(e.pdb[j]) # Len(AtomsOf(Itp(names[j])))
           THEN "atom-count-differs-between-coordinates-and-itp"
-     ELSE IF \E j \in DOMAIN names : \E k \in DOMAIN e.pdb[j] : e.pdb[j][k] # Coord(AtomsOf(Itp(names[j]))[k])
+     ELSE IF \E j \in DOMAIN names : LET at == AtomsOf(Itp(names[j])) IN \E k \in DOMAIN e.pdb[j] : ~PdbSays(e.pdb[j][k], at[k])
           THEN "kth-coordinate-record-is-not-the-kth-itp-atom"
      ELSE IF \E j \in DOMAIN names : e.own[j] # Itp(names[j]) THEN "same-name-for-molecules-with-different-topologies"
-     ELSE "ok"
+     ELSE ""
+
+(* group 2: the GRO file of the same system (no delimiter: the records of molecule j are the next Len(atoms) ones) *)
+Gro(e) ==
+  LET Itp(nm) == e.itps[CHOOSE i \in DOMAIN e.itps : e.itps[i].name = nm].itp
+      flat == Concat([j \in DOMAIN e.names |-> AtomsOf(Itp(e.names[j]))])
+  IN IF e.gro = <<>> THEN ""
+     ELSE IF Len(e.gro[1]) # Len(flat) THEN "gro:atom-count-differs-between-gro-and-itps"
+     ELSE IF \E k \in DOMAIN flat : ~GroSays(e.gro[1][k], flat[k]) THEN "gro:kth-gro-record-is-not-the-kth-itp-atom"
+     ELSE ""
+
+(* group 3: parameter files of Go-model / water-bias runs and the #define lines.  A virtual-site atom type is one named
+   <molecule type>_<number> (go_vs_includes.py); martinize2 declares them in an [ atomtypes ] file of its own. *)
+IsSiteType(t, nm) == Len(t) > Len(nm) + 1 /\ SubSeq(t, 1, Len(nm) + 1) = nm \o "_"
+Extra(e) ==
+  LET Itp(nm) == e.itps[CHOOSE i \in DOMAIN e.itps : e.itps[i].name = nm].itp
+      used     == UNION {{TypeOf(AtomsOf(Itp(nm))[k]) : k \in DOMAIN AtomsOf(Itp(nm))} : nm \in Range(e.names)}
+      sites    == {t \in used : \E nm \in Range(e.names) : IsSiteType(t, nm)}
+      declared == Range(e.extra.atomtypes)
+      NeedsDecl(t) == \E nm \in Range(e.names) : IsSiteType(t, nm)
+  IN IF e.extra.malformed # <<>> THEN "extra:parameter-file-has-unreadable-lines"
+     ELSE IF (e.extra.kind = "go") # ("GO_VIRT" \in Range(e.top.defines)) THEN "extra:define-GO_VIRT-does-not-go-with-the-go-files"
+     ELSE IF \E t \in sites : t \notin declared THEN "extra:virtual-site-type-of-an-itp-atom-not-declared"
+     ELSE IF \E t \in declared : t \notin used THEN "extra:declared-atom-type-that-no-written-molecule-type-uses"
+     ELSE IF \E i \in DOMAIN e.extra.nbparams : \E t \in Range(e.extra.nbparams[i]) : NeedsDecl(t) /\ t \notin declared
+          THEN "extra:nonbond-params-name-an-undeclared-virtual-site-type"
+     ELSE ""
+
+(* group 4: the output-shaping options of the command line (beyond the statement; named "option:") *)
+Groups(o) ==
+  IF o.all THEN <<Range(o.chains)>>
+  ELSE LET SetOf(c) == IF \E i \in DOMAIN o.merge : c \in Range(o.merge[i])
+                       THEN Range(o.merge[CHOOSE i \in DOMAIN o.merge : c \in Range(o.merge[i])]) \cap Range(o.chains)
+                       ELSE {c}
+           First(S) == o.chains[CHOOSE i \in DOMAIN o.chains : o.chains[i] \in S /\ \A q \in 1..(i - 1) : o.chains[q] \notin S]
+           heads == SelectSeq(o.chains, LAMBDA c : c = First(SetOf(c)))
+       IN [i \in DOMAIN heads |-> SetOf(heads[i])]
+Option(e) ==
+  LET o == e.opt
+      ChainsOf(j) == {e.pdb[j][k].chain : k \in DOMAIN e.pdb[j]}
+  IN IF ~o.judged THEN ""
+     ELSE IF o.go /\ e.names # <<o.molname>> THEN "option:go-run-is-not-one-molecule-named-by-name"
+     ELSE IF ~o.go /\ ~NumberedByFirstOcc(e.names, o.molname) THEN "option:names-are-not-prefix_k-numbered-by-first-occurrence"
+     ELSE IF o.sep /\ Cardinality(Range(e.names)) # Len(e.names) THEN "option:sep-given-but-molecules-share-a-type"
+     ELSE IF o.chains # <<>> /\ [j \in DOMAIN e.pdb |-> ChainsOf(j)] # Groups(o)
+          THEN "option:molecules-are-not-the-requested-chain-groups-in-input-order"
+     ELSE ""
+
+(* group 5: write-then-read by the repository's own readers *)
+ReadBack(e) ==
+  LET rb == e.rb[1]
+      Same(a, b) == a.name = b.name /\ a.resname = b.resname /\ FC!ParseInt(a.resid) = b.resid
+      ItpOf(nm) == e.itps[CHOOSE i \in DOMAIN e.itps : e.itps[i].name = nm].itp
+      ItpV(x) == LET itp == ItpOf(x.name)
+                     st  == IA!ReadAll(itp.recs)
+                     dI  == IA!DescOfRecs([moltype |-> itp.moltype, nrexcl |-> itp.nrexcl, nrexcl_n |-> x.nrexcl_n], itp.recs, x.num)
+                 IN IF st.bad \/ st.stack # <<>> \/ Len(x.num) # Len(st.atoms) THEN "text-unreadable"
+                    ELSE IF \E i \in DOMAIN x.num : ~x.num[i].ok THEN "excluded"
+                    ELSE IF IA!UsesUnknownSection(dI) THEN "excluded"
+                    ELSE IF \E i \in DOMAIN itp.recs : itp.recs[i].k = "else" THEN "excluded"
+                    ELSE IF \E i \in DOMAIN st.inters : Len(st.inters[i].g) > 1 THEN "excluded"
+                    ELSE IF x.rd.err # "" THEN "reader:rejects-the-written-text"
+                    ELSE IA!Agree(dI, IA!DescOfBlock(x.rd))
+  IN IF e.rb = <<>> THEN ""
+     ELSE IF Len(rb.pdb) # Len(e.pdb) THEN "readback:read_pdb-finds-another-number-of-molecules"
+     ELSE IF \E j \in DOMAIN e.pdb : Len(rb.pdb[j]) # Len(e.pdb[j]) THEN "readback:read_pdb-finds-another-number-of-atoms"
+     ELSE IF \E j \in DOMAIN e.pdb : \E k \in DOMAIN e.pdb[j] : ~Same(e.pdb[j][k], rb.pdb[j][k])
+          THEN "readback:read_pdb-atom-differs-in-name-residue-or-order"
+     ELSE IF Len(rb.gro) # Len(e.gro) THEN "readback:read_gro-did-not-read-the-file"
+     ELSE IF e.gro # <<>> /\ Len(rb.gro[1]) # Len(e.gro[1]) THEN "readback:read_gro-finds-another-number-of-atoms"
+     ELSE IF e.gro # <<>> /\ \E k \in DOMAIN e.gro[1] : ~Same(e.gro[1][k], rb.gro[1][k])
+          THEN "readback:read_gro-atom-differs-in-name-residue-or-order"
+     ELSE IF {rb.itps[i].name : i \in DOMAIN rb.itps} # {e.itps[i].name : i \in DOMAIN e.itps}
+          THEN "readback:not-every-itp-was-read-back"
+     ELSE IF \E i \in DOMAIN rb.itps : ItpV(rb.itps[i]) \notin {"ok", "excluded"}
+          THEN "readback:read_itp-" \o ItpV(rb.itps[CHOOSE i \in DOMAIN rb.itps : ItpV(rb.itps[i]) \notin {"ok", "excluded"}])
+     ELSE ""
+
+(* group 6: history - a second write of the same system states the same thing *)
+Again(e) ==
+  IF e.again = <<>> THEN ""
+  ELSE IF e.again[1] # [pdb |-> e.pdb, gro |-> e.gro, itps |-> e.itps, top |-> e.top, extra |-> e.extra]
+       THEN "history:second-write-of-the-same-system-differs"
+  ELSE ""
+
+(* group 7: history - naming the same molecules again, in other orders, with and without deduplication.
+   Output!NameDecl: with deduplication the names count the distinct molecules in order of first occurrence, so WHICH
+   molecules share a name cannot depend on the order; and a shared name needs identical written topologies. *)
+Hist(e) ==
+  LET Shared(r) == UNION {{<<r.perm[i], r.perm[j]>> : j \in {q \in DOMAIN r.names : r.names[q] = r.names[i]}} : i \in DOMAIN r.names}
+      dd == {i \in DOMAIN e.hist : e.hist[i].dedup}
+  IN IF e.hist = <<>> THEN ""
+     ELSE IF \E i \in DOMAIN e.hist : ~NumberedByFirstOcc(e.hist[i].names, e.opt.molname)
+          THEN "history:names-are-not-prefix_k-numbered-by-first-occurrence"
+     ELSE IF \E i \in DOMAIN e.hist \ dd : Cardinality(Range(e.hist[i].names)) # Len(e.hist[i].names)
+          THEN "history:names-shared-without-deduplication"
+     ELSE IF \E i \in dd : \E p \in Shared(e.hist[i]) : NoName(e.own[p[1]]) # NoName(e.own[p[2]])
+          THEN "history:same-name-for-molecules-with-different-topologies"
+     ELSE IF \E i, j \in dd : Shared(e.hist[i]) # Shared(e.hist[j]) THEN "history:which-molecules-share-a-type-depends-on-their-order"
+     ELSE ""
+
+(* a caller may name the molecule types himself; if his names cannot be honoured (one name, different topologies) the
+   only way to keep the statement is to refuse to write *)
+Clash(e) == \E i, j \in DOMAIN e.names : e.names[i] = e.names[j] /\ NoName(e.own[i]) # NoName(e.own[j])
+
+RECURSIVE JoinStr(_)
+JoinStr(ss) == IF Len(ss) = 1 THEN ss[1] ELSE ss[1] \o ";" \o JoinStr(Tail(ss))
+Join(parts) == LET bad == SelectSeq(parts, LAMBDA s : s # "") IN IF bad = <<>> THEN "ok" ELSE JoinStr(bad)
+
+Judge(e) ==
+  IF e.refused THEN (IF Clash(e) THEN "ok" ELSE "writer-refused-a-system-whose-names-are-consistent")
+  ELSE LET s == Structure(e)
+       IN IF s # "" THEN s
+          ELSE Join(<<Core(e), Extra(e), Option(e), ReadBack(e), Again(e), Hist(e), Gro(e)>>)
 
 Init == tid \in 1..Len(Batch) /\ verdict = "pending"
 Eval == /\ verdict = "pending"
